@@ -557,6 +557,15 @@ func FPFromBits(a *Term) *Term {
 		}
 		return F32C(math.Float32frombits(uint32(a.U)))
 	}
+	// to_fp(fp.to_ieee_bv(x)) = x (SMT-LIB has a single NaN, so this holds for NaN too)
+	const pre = "(fp.to_ieee_bv "
+	if strings.HasPrefix(a.S, pre) {
+		inner := a.S[len(pre) : len(a.S)-1]
+		if a.Sort.W == 64 {
+			return &Term{Sort: F64Sort, S: inner, size: a.size - 1}
+		}
+		return &Term{Sort: F32Sort, S: inner, size: a.size - 1}
+	}
 	if a.Sort.W == 64 {
 		return app(F64Sort, "(_ to_fp 11 53)", a)
 	}
